@@ -1417,6 +1417,7 @@ func HandleAppendWithReader(deps ServerDeps, reader io.Reader, conn net.Conn, ta
 
 	// Parse folder name (could be quoted)
 	folder := strings.Trim(parts[2], "\"")
+	folder = utils.NormalizeMailboxName(folder)
 
 	// Validate folder exists using the database with new schema
 	mailboxID, err := db.GetMailboxByNamePerUser(userDB, state.UserID, folder)
@@ -1570,6 +1571,7 @@ func HandleAppend(deps ServerDeps, conn net.Conn, tag string, parts []string, fu
 
 	// Parse folder name (could be quoted)
 	folder := strings.Trim(parts[2], "\"")
+	folder = utils.NormalizeMailboxName(folder)
 
 	// Validate folder exists using the database with new schema
 	mailboxID, err := db.GetMailboxByNamePerUser(userDB, state.UserID, folder)
